@@ -214,6 +214,12 @@ impl Cfg {
     pub fn searcher(&self) -> Searcher {
         self.builder().build()
     }
+    /// same, with a roll buffer of `SMALL_CAP` bytes
+    pub fn searcher_small(&self) -> Searcher {
+        let mut b = self.builder();
+        b.verif_buffer_capacity(SMALL_CAP);
+        b.build()
+    }
     /// same, with a heap limit (the multi-line reader path then fills its buffer with its own read loop)
     pub fn searcher_heap(&self, limit: usize) -> Searcher {
         let mut b = self.builder();
@@ -733,11 +739,16 @@ impl Strategy {
 pub struct Searchers {
     pub plain: Searcher,
     pub mmap: Searcher,
+    /// roll buffer of `SMALL_CAP` bytes (hook `verif_buffer_capacity`): the buffer rolls and grows on tiny inputs
+    pub small: Searcher,
 }
+
+/// initial capacity of the roll buffer of `Searchers::small`
+pub const SMALL_CAP: usize = 7;
 
 impl Searchers {
     pub fn new(cfg: &Cfg) -> Searchers {
-        Searchers { plain: cfg.searcher(), mmap: cfg.searcher_mmap() }
+        Searchers { plain: cfg.searcher(), mmap: cfg.searcher_mmap(), small: cfg.searcher_small() }
     }
 }
 
